@@ -153,6 +153,15 @@ func (r *Result) finish(w *world.World) {
 		}
 		r.ProbeN("spin-parks", int(s.Stats.SpinParks))
 		r.ProbeN("timers-fired", int(s.Stats.TimersFired))
+		// how close runs come to the "task ran without bound" limit (2 step budgets = 6M steps)
+		switch m := s.Stats.MaxSlice; {
+		case m >= 3_000_000:
+			r.Probe("longest-slice>=3M-steps")
+		case m >= 1_000_000:
+			r.Probe("longest-slice>=1M-steps")
+		case m >= 100_000:
+			r.Probe("longest-slice>=100k-steps")
+		}
 	}
 }
 
